@@ -101,7 +101,7 @@ class Path:
         self.ret = ret      # concrete return value or TOP
 
 
-def explore(f, start, env, classify, stop_at=(), max_states=20000, memory_vals=None):
+def explore(f, start, env, classify, stop_at=(), max_states=20000, memory_vals=None, arith=True):
     """Explore all paths from just after instruction id `start` (or from function
     entry when start is None).
 
@@ -176,6 +176,9 @@ def explore(f, start, env, classify, stop_at=(), max_states=20000, memory_vals=N
             if I.op in ("br", "switch"):
                 break
             if bound_self:
+                continue
+            if not arith and I.op not in ("icmp", "zext", "sext", "trunc", "select"):
+                e.pop(("i", I.id), None)
                 continue
             x = eval_inst(f, I, e)
             if x is not TOP:
